@@ -1,4 +1,5 @@
 import LcModel.Filter.Lemmas
+import LcModel.Filter.LemmasHashes
 /-!
 # C06 — block filters are acted on only if authentic
 
@@ -155,7 +156,181 @@ theorem old_rule_accepts_unchecked_cache :
   intro H s m
   exact ⟨⟨5, [5001, 5001001, 5001001001], rfl, rfl⟩, ⟨7, rfl⟩⟩
 
+/-! ## the cached filter hashes (`BlockFilterHashesProcess::execute`, the cached branch)
+
+`Authentic.cached` above is an ASSUMPTION of `accepted_filters_authentic`.  What the code that
+fills the cache (`Filter.onCachedHashes`, tied to the code by `./check C06`: every
+`BlockFilterHashes` delivery that takes the cached branch is run through both) establishes is
+less: a complete cache ends with the next stored check point (`cache_end_checked`); the positions
+before the last come from one proved peer and are compared with nothing
+(`cache_middle_unchecked`). -/
+
+/-- **the cache update never aborts**: no index, slice or subtraction failure for any message,
+provided the stored check points reach the finalized index -/
+theorem cached_hashes_no_abort (s : St) (proved : Bool) (start parent : Nat) (hashes : List Nat)
+    (hc : s.finIdx < s.cps.length) :
+    ∃ r, onCachedHashes s proved start parent hashes = .ok r :=
+  hashesCore_no_abort false s proved start parent hashes hc
+
+/-- the histories of the filter layer state: filter-hash messages (cached branch), filter
+batches, moves of the filtered height by the user (`set_scripts`), new finalized check points -/
+inductive Reach (H : Nat → Nat → Nat) (s0 : St) : St → Prop where
+  | start : Reach H s0 s0
+  | hashes {s s' : St} (proved : Bool) (start parent : Nat) (hs : List Nat) (r : HRes) :
+      Reach H s0 s → onCachedHashes s proved start parent hs = .ok (s', r) → Reach H s0 s'
+  | filters {s s' : St} (proved : Bool) (latest : List Nat) (m : Msg) (r : Res) :
+      Reach H s0 s → execute H s proved latest m = .ok (s', r) → Reach H s0 s'
+  | moved {s : St} (n : Nat) : Reach H s0 s → Reach H s0 (moveTo s n)
+  | grow {s : St} (more : List Nat) (f : Nat) :
+      Reach H s0 s → Reach H s0 { s with cps := s.cps ++ more, finIdx := f }
+
+theorem reach_endChecked (H : Nat → Nat → Nat) (s0 s : St) (h0 : EndChecked s0)
+    (hr : Reach H s0 s) : EndChecked s := by
+  induction hr with
+  | start => exact h0
+  | hashes _ _ _ _ _ _ h ih => exact hashes_step_endChecked h ih
+  | filters _ _ _ _ _ h ih =>
+    rcases execute_state h with rfl | ⟨n, rfl⟩
+    · exact ih
+    · exact moveTo_endChecked _ n ih
+  | moved n _ ih => exact moveTo_endChecked _ n ih
+  | grow more f _ ih => exact grow_endChecked _ more f ih
+
+/-- **what the cache update guarantees**: starting from an empty cache (what the client holds
+when the filtered height enters an interval), after any history — any filter-hash messages from
+any peers with any outcome, interleaved with filter batches, moves of the filtered height and
+newly finalized check points — the cache is never longer than the interval, and a complete cache
+holds the next stored check point in its last position -/
+theorem cache_end_checked (H : Nat → Nat → Nat) (s0 s : St) (h0 : s0.cached = [])
+    (hr : Reach H s0 s) :
+    s.cached.length ≤ s.interval ∧
+    (0 < s.interval → s.interval ≤ s.cached.length →
+      s.cached.length = s.interval ∧
+      ∃ cp, s.cps[s.cachedIdx + 1]? = some cp ∧ s.cached.getLast? = some cp) := by
+  obtain ⟨h1, h2⟩ := reach_endChecked H s0 s (endChecked_of_empty s0 h0) hr
+  refine ⟨h1, fun hp hl => ?_⟩
+  obtain ⟨cp, hcp, hc⟩ := h2 hp hl
+  have hlen : s.cached.length = s.interval := by omega
+  refine ⟨hlen, cp, hcp, ?_⟩
+  rw [List.getLast?_eq_getElem?, hlen]; exact hc
+
+/-- a sequence of filter-hash messages `(proved, start, parent, hashes)`; an abort stops it -/
+def runHashes (s : St) : List (Bool × Nat × Nat × List Nat) → St
+  | [] => s
+  | (p, st, pa, hs) :: ms =>
+    match onCachedHashes s p st pa hs with
+    | .ok (s', _) => runHashes s' ms
+    | .error _ => s
+
+/-- the same over a message list -/
+theorem cache_end_checked_run (s0 : St) (h0 : s0.cached = [])
+    (ms : List (Bool × Nat × Nat × List Nat)) :
+    (runHashes s0 ms).cached.length ≤ s0.interval ∧
+    (0 < s0.interval → s0.interval ≤ (runHashes s0 ms).cached.length →
+      ∃ cp, s0.cps[s0.cachedIdx + 1]? = some cp ∧ (runHashes s0 ms).cached.getLast? = some cp) := by
+  have key : ∀ (ms : List (Bool × Nat × Nat × List Nat)) (s : St),
+      Reach (fun _ _ => 0) s0 s →
+      Reach (fun _ _ => 0) s0 (runHashes s ms) ∧ (runHashes s ms).interval = s.interval ∧
+        (runHashes s ms).cps = s.cps ∧ (runHashes s ms).cachedIdx = s.cachedIdx := by
+    intro ms
+    induction ms with
+    | nil => intro s hs; exact ⟨hs, rfl, rfl, rfl⟩
+    | cons m ms ih =>
+      intro s hs
+      obtain ⟨p, st, pa, hashes⟩ := m
+      unfold runHashes
+      cases hx : onCachedHashes s p st pa hashes with
+      | error e => exact ⟨hs, rfl, rfl, rfl⟩
+      | ok x =>
+        obtain ⟨s', r⟩ := x
+        obtain ⟨h1, h2, h3, h4⟩ := ih s' (.hashes p st pa hashes r hs hx)
+        refine ⟨h1, ?_, ?_, ?_⟩
+        · rw [h2]; rcases hashesCore_ok hx with rfl | ⟨_, _, rfl, _⟩ <;> rfl
+        · rw [h3]; rcases hashesCore_ok hx with rfl | ⟨_, _, rfl, _⟩ <;> rfl
+        · rw [h4]; rcases hashesCore_ok hx with rfl | ⟨_, _, rfl, _⟩ <;> rfl
+  obtain ⟨hr, e1, e2, e3⟩ := key ms s0 .start
+  obtain ⟨a, b⟩ := cache_end_checked _ s0 _ h0 hr
+  rw [e1] at a b
+  rw [e2, e3] at b
+  exact ⟨a, fun hp hl => (b hp hl).2⟩
+
+/-- the witness chain: every block's filter is `2`, `H a b = 1000 * a + b` -/
+def wHash : Nat → Nat
+  | 0 => 0
+  | n + 1 => 1000 * wHash n + 2
+
+/-- **the known finding, closed** (`C06|unauthentic-filter-accepted|ForgedCacheRightEnd`): the
+stored check points are the chain's, the cache is empty; one proved peer sends a full interval of
+made-up hashes (chained over the filter `1` nobody's block has) whose last entry is the next
+check point: the cache takes them, and `Filter.execute` then accepts the made-up filters for
+every position but the last.  `Authentic.cached`, the hypothesis of
+`accepted_filters_authentic`, is NOT established by the code -/
+theorem cache_middle_unchecked :
+    let H : Nat → Nat → Nat := fun a b => 1000 * a + b
+    let trueFilter : Nat → Nat := fun _ => 2
+    let s0 : St := ⟨3, 3, false, 2, [0, 2002002, 2002002002002002], 1, []⟩
+    let fake : List Nat := [2002002001, 2002002001001, 2002002002002002]
+    let s1 : St := { s0 with cached := fake }
+    ChainHashes H wHash trueFilter ∧
+    (∀ i h, s0.cps[i]? = some h → h = wHash (s0.interval * i)) ∧
+    fake = [H (wHash 3) 1, H (H (wHash 3) 1) 1, wHash 6] ∧
+    onCachedHashes s0 true 4 (wHash 3) fake = .ok (s1, .updated none) ∧
+    execute H s1 true [] ⟨4, [1, 1], [41, 42], [false, false]⟩ =
+      .ok ({ s1 with minF := 5 }, .accepted 2 []) ∧
+    trueFilter 4 ≠ 1 ∧ trueFilter 5 ≠ 1 ∧
+    ¬ (∀ i h, s1.cached[i]? = some h → h = wHash (s1.interval * s1.cachedIdx + 1 + i)) := by
+  intro H trueFilter s0 fake s1
+  refine ⟨fun n => rfl, ?_, by decide, by rfl, by unfold s1 s0 fake H; rfl, by decide, by decide, ?_⟩
+  · intro i h hi
+    match i, hi with
+    | 0, hi => simp [s0] at hi; subst hi; decide
+    | 1, hi => simp [s0] at hi; subst hi; decide
+    | 2, hi => simp [s0] at hi; subst hi; decide
+    | i + 3, hi => simp [s0] at hi
+  · intro hall
+    exact absurd (hall 0 _ rfl) (by decide)
+
+/-- **the rule before 18445c9** (`end_number > next check point`): a full interval of made-up
+hashes that ends EXACTLY at the next check point was cached although its last entry is not the
+check point; the current rule bans the sender (482) and leaves the cache alone -/
+theorem old_rule_end_unchecked :
+    let s0 : St := ⟨3, 3, false, 2, [0, 2002002, 2002002002002002], 1, []⟩
+    let fake : List Nat := [2002002001, 2002002001001, 2002002001001001]
+    onCachedHashesOld s0 true 4 2002002 fake = .ok ({ s0 with cached := fake }, .updated none) ∧
+    fake.getLast? ≠ s0.cps[s0.cachedIdx + 1]? ∧
+    onCachedHashes s0 true 4 2002002 fake = .ok (s0, .banned HASHES_UNEXPECTED) := by
+  intro s0 fake
+  exact ⟨by rfl, by decide, by rfl⟩
+
 /-! ## non-vacuity -/
+
+/-- `cache_end_checked`: two messages from different peers fill the cache of the interval
+(blocks 4..6, the second overlaps the first and runs past the check point: truncated); the
+complete cache ends with the check point -/
+example :
+    let s0 : St := ⟨3, 3, false, 2, [10, 20, 30], 1, []⟩
+    let s2 := runHashes s0 [(true, 4, 20, [21]), (true, 4, 20, [21, 22, 30, 31, 32])]
+    s2.cached = [21, 22, 30] ∧ s2.cached.getLast? = s0.cps[s0.cachedIdx + 1]? ∧
+    onCachedHashes s0 true 4 20 [21] = .ok ({ s0 with cached := [21] }, .updated (some 5)) := by
+  intro s0 s2
+  exact ⟨by rfl, by rfl, by rfl⟩
+
+/-- the outcomes: wrong parent at the check point (ban), gap (ignored), wrong parent inside
+(ignored), wrong hash at the check point (ban), disagreement with the cache (ignored), a message
+outside the cached interval (the other branch) -/
+example :
+    let s : St := ⟨3, 3, false, 2, [10, 20, 30], 1, [21]⟩
+    onCachedHashes s true 4 99 [21] = .ok (s, .banned 482) ∧
+    onCachedHashes s true 6 22 [30] = .ok (s, .ignored 2) ∧
+    onCachedHashes s true 5 99 [22] = .ok (s, .ignored 3) ∧
+    onCachedHashes s true 5 21 [22, 99] = .ok (s, .banned 482) ∧
+    onCachedHashes s true 4 20 [88, 22] = .ok (s, .ignored 4) ∧
+    onCachedHashes s true 7 30 [31] = .ok (s, .other) ∧
+    onCachedHashes s false 4 20 [21] = .ok (s, .ignored 1) ∧
+    onCachedHashes s true 5 21 [22, 30] = .ok ({ s with cached := [21, 22, 30] }, .updated none) := by
+  intro s
+  exact ⟨by rfl, by rfl, by rfl, by rfl, by rfl, by rfl, by rfl, by rfl⟩
+
 
 example :
     let H : Nat → Nat → Nat := fun a b => 1000 * a + b
